@@ -104,7 +104,7 @@ def _cvc5(smt2: str, timeout_s: int):
         os.unlink(path)
 
 
-def discharge(ob: Obligation, timeout_ms=10000, use_cvc5=True):
+def discharge(ob: Obligation, timeout_ms=10000, use_cvc5=True, hook=None):
     """-> dict(verdict=proved|refuted|undecided, backend, ms, model?)"""
     g = ob.goal
     if z3.is_true(z3.simplify(g)) if z3.is_bool(g) else False:
@@ -132,6 +132,10 @@ def discharge(ob: Obligation, timeout_ms=10000, use_cvc5=True):
         if ob.params:
             try:
                 cex = {k: concretize(v, m) for k, v in ob.params.items()}
+                if hook:
+                    import importlib
+                    mod, fn = hook.split(':')
+                    cex['__hook'] = getattr(importlib.import_module(mod), fn)(m, ob.params)
             except Exception as e:       # model incomplete for some leaf
                 cex = {'error': repr(e)}
         return dict(verdict='refuted', backend='z3', ms=ms, model=cex, tainted=ob.tainted)
@@ -201,7 +205,7 @@ def verify_target(repo_root: str, relpath: str, qualname: str, contract: dict, r
             k = seen.get(ob.name, 0)
             seen[ob.name] = k + 1
             name = ob.name if k == 0 else f'{ob.name}#p{k}'
-            r = discharge(ob, timeout_ms)
+            r = discharge(ob, timeout_ms, hook=contract.get('model_hook'))
             r.update(name=name, kind=ob.kind, lineno=ob.lineno, note=ob.note)
             rep['obligations'].append(r)
     except SpecError as e:
